@@ -517,7 +517,7 @@ def run(tier, seed):
         "rule": "(i) every word of length <=4 over {serializable, cached, named(n1), named(n2)} applied to a lambda, a def "
                 "and a string: class, name, == and hash must depend only on the set of wrappers; a name applied to an "
                 "already named function must raise ValueError (def and string carry an implicit name once wrapped); (ii) "
-                "every sequence of <=%d calls over 23 argument tuples (two make the function raise, three pass a second positional argument) (identical / equal-but-distinct / different scalars, "
+                "every sequence of <=%d calls over 29 argument tuples (two make the function raise, three pass a second positional argument, six are views of one parent buffer); every wrapper x 5 ways of changing an argument object in place x every sequence of <=3 of {change it, pass it again, pass a fresh equal object} (identical / equal-but-distinct / different scalars, "
                 "arrays, dicts, keyword arguments) through 6 wrappers vs the bare function; (iii) %d expressions of the "
                 "grammar evaluated through the library on dict, attribute and bare-scalar records in all 6 orders vs "
                 "Python's eval; every ordered pair of %d field names that collide with names the library injects (math constants and "
